@@ -15,7 +15,7 @@ LEVEL = 'exploration'
 RULE = ('Hypothesis-generated call histories (5..14 operations) against ONE cache directory: assemble(curve, test list, '
         'trial list, serial | pool with 1..16 workers) with lists drawn from a prepared pool (whole meshes, rectangular '
         'N != M lists on both sides of the N*M < 100 inline threshold, permutations, estimator quarter lists, two curves '
-        '(UnitSquare / LShape) whose sub-lists have identical element reprs, different lists of one curve with equal N, M), '
+        '(UnitSquare / LShape) whose sub-lists have identical element reprs, both values of the straight-panel switch (one directory each, as the driver does), two lists of 255 elements that agree in their first and last elements, different lists of one curve with equal N, M), '
         'new operator object on the same directory, damage of a stored file (delete, empty, header only, half, one byte '
         'short, 64 garbage bytes), and the same for InitialOperator.linform_vector. Invariant after every call: the '
         'returned array equals, bit for bit, the array of single-pair bilform(trial_j, test_i) / single-element linform '
@@ -93,7 +93,7 @@ LISTS = ['all', 'small', 'small2', 'perm', 'rows', 'cols', 'first_two_sides', 'q
 def ops_strategy():
     asm = st.fixed_dictionaries({'op': st.just('assemble'), 'curve': st.sampled_from(['UnitSquare', 'LShape', 'Circle', 'UnitSquare']),
                                  'test': st.sampled_from(LISTS), 'trial': st.sampled_from(LISTS),
-                                 'mp': st.booleans(), 'workers': st.integers(1, 16)})
+                                 'mp': st.booleans(), 'workers': st.integers(1, 16), 'exact': st.booleans()})
     dmg = st.fixed_dictionaries({'op': st.just('damage'), 'which': st.integers(0, 50), 'how': st.sampled_from(DAMAGE)})
     fresh = st.just({'op': 'fresh'})
     m0 = st.fixed_dictionaries({'op': st.just('m0'), 'lst': st.sampled_from(['small', 'small2', 'rows']), 'mp': st.booleans(),
@@ -159,11 +159,16 @@ def body(case, rec):
     ops = {}
     m0 = {}
 
-    def SL(name):
-        if name not in ops:
+    def SL(name, exact=False):
+        exact = bool(exact) and name != 'Circle'
+        if (name, exact) not in ops:
             with repo.quiet():
-                ops[name] = SingleLayerOperator(W.lives[name].mesh, cache_dir=cdir)
-        return ops[name]
+                # the driver keeps one directory per value of the switch ('data' / 'data_exact'): the key does not
+                # contain the switch and the property does not ask it to
+                sub_dir = os.path.join(cdir, 'exact') if exact else cdir
+                os.makedirs(sub_dir, exist_ok=True)
+                ops[(name, exact)] = SingleLayerOperator(W.lives[name].mesh, pw_exact=exact, cache_dir=sub_dir)
+        return ops[(name, exact)]
 
     keys = set()
     damaged = False
@@ -177,7 +182,7 @@ def body(case, rec):
                 m0.clear()
                 continue
             if kind == 'damage':
-                files = sorted(glob.glob(os.path.join(cdir, '*.npy')))
+                files = sorted(glob.glob(os.path.join(cdir, '*.npy')) + glob.glob(os.path.join(cdir, 'exact', '*.npy')))
                 if not files:
                     continue
                 if op['which'] < 0:
@@ -194,7 +199,7 @@ def body(case, rec):
                 trial = W.lists[name][op['trial']]
                 if not test or not trial:
                     continue
-                S = SL(name)
+                S = SL(name, op.get('exact'))
                 N, M = len(test), len(trial)
                 with repo.quiet():
                     # 'all' x 'all' is also requested through the default arguments (None = the mesh's leaves)
@@ -213,7 +218,7 @@ def body(case, rec):
                 rec.cls('assemble_' + path)
                 rec.add('calls')
                 if N * M >= 100:
-                    keys.add((name, op['test'], op['trial']))
+                    keys.add((name, op['test'], op['trial'], bool(op.get('exact'))))
                     if op['mp'] and op['workers'] >= 2:
                         big_pool = True
                     if damaged:
@@ -224,6 +229,32 @@ def body(case, rec):
                                   {'op_index': n_op, 'op': op, 'entries_different': bad, 'shape': list(mat.shape),
                                    'max_abs_diff': float(np.max(np.abs(mat - want))) if mat.shape == want.shape else None}, case)
                     return
+            elif kind == 'm0_long':
+                # two different lists of 255 elements of one curve that agree in their first and last elements
+                if 'long' not in W.lives:
+                    lv = Live({'kind': 'param', 'curve': 'UnitSquare', 'ts': [0.0, 1.0], 'xs': None})
+                    for _ in range(3):
+                        apply_op(lv, ['unif'], cap=10**6)
+                    W.lives['long'] = lv
+                allv = W.lives['long'].leaves()
+                L1 = allv[:100] + allv[101:]
+                L2 = allv[:150] + allv[151:]
+                with repo.quiet():
+                    Ml = InitialOperator(bdr_mesh=W.lives['long'].mesh, u0=lambda xy: 1, initial_mesh=UnitSquareBoundaryRefined, cache_dir=cdir)
+                    with repo.pool_shim([ipm], 16):
+                        v1 = np.asarray(Ml.linform_vector(elems=L1, use_mp=True), dtype=float)
+                        v2 = np.asarray(Ml.linform_vector(elems=L2, use_mp=True), dtype=float)
+                    probe = [100, 120, 149]
+                    s1 = [float(Ml.linform(L1[i])[0]) for i in probe]
+                    s2 = [float(Ml.linform(L2[i])[0]) for i in probe]
+                rec.cls('long_lists_255')
+                keys.add(('M0long', 1))
+                keys.add(('M0long', 2))
+                if [v1[i] for i in probe] != s1 or [v2[i] for i in probe] != s2 or not np.array_equal(v1[:100], v2[:100]):
+                    rec.violation('C17/vector/long_lists/mismatch', {'op_index': n_op, 'first_list': [[v1[i] for i in probe], s1],
+                                                                    'second_list': [[v2[i] for i in probe], s2]}, case)
+                    return
+                continue
             elif kind in ('m0_fault', 'sl_fault'):
                 # a fault (exception) in the middle of a computation against the cache directory: whatever it leaves
                 # behind must not be served as a result later
@@ -330,7 +361,7 @@ def body(case, rec):
                                   {'op_index': n_op, 'op': op, 'got': vec.tolist(), 'element_wise': want.tolist()}, case)
                     return
             # directory invariants after every call
-            files = sorted(glob.glob(os.path.join(cdir, '*')))
+            files = sorted(f for f in glob.glob(os.path.join(cdir, '*')) + glob.glob(os.path.join(cdir, 'exact', '*')) if os.path.isfile(f))
             if len(files) > len(keys):
                 rec.cls('more_files_than_distinct_keys')       # observation only: the property does not bound the file count
             result = mat if kind == 'assemble' else vec
@@ -373,6 +404,7 @@ def crash_point_cases():
             D = {'op': 'damage', 'which': -1, 'how': how}
             out.append({'ops': [A, M, D, A2, M2, {'op': 'fresh'}, A, M]})
     # faults in the middle of a computation (the quadrature of element 35 of 48 / of the last trial column raises)
+    out.append({'ops': [{'op': 'm0_long'}]})
     out.append({'ops': [{'op': 'm0_fault', 'after': 35}, {'op': 'fresh'}]})
     out.append({'ops': [{'op': 'm0_fault', 'after': 40.5}, {'op': 'fresh'}]})
     out.append({'ops': [{'op': 'sl_fault', 'after': 2}, {'op': 'fresh'}, {'op': 'sl_fault', 'after': 1}]})
